@@ -10,6 +10,7 @@ import GenM.SO3
 import Lib.ExpForms
 import Props.SeriesLemmas
 import Props.C02
+import Mathlib.Analysis.Real.Pi.Bounds
 
 set_option maxHeartbeats 4000000
 open Gen Rot RotExp SeriesLemmas
@@ -166,5 +167,106 @@ theorem SO3Quat_log_half_angle (c : ℝ) :
   · exact Real.arccos_nonneg _
   · apply Real.arccos_le_pi_div_two.mpr
     split_ifs with h <;> linarith
+
+
+/-! ## SO(3), quaternion form: exp and log are mutually inverse on unit quaternions (closed-form cells) -/
+
+/-- the quaternion log of a unit quaternion with non-negative scalar part: 2 (h / sin h) q_v with h = arccos q₀ -/
+theorem SO3Quat_log_spec_pos (q : Fin 4 → ℝ) (hq : q 0 * q 0 + q 1 * q 1 + q 2 * q 2 + q 3 * q 3 = 1) (h0 : ¬ q 0 < 0) :
+    SO3Quat.log.r_vec q = ![2 * (q 1 * Series.x_over_sin_x (Real.arccos (q 0))), 2 * (q 2 * Series.x_over_sin_x (Real.arccos (q 0))),
+      2 * (q 3 * Series.x_over_sin_x (Real.arccos (q 0)))] := by
+  funext i; fin_cases i <;>
+    simp only [cas_defs, cas_real, hq, Real.sqrt_one, div_one, h0, if_false, if_true, ne_eq, not_true_eq_false, one_ne_zero,
+      not_false_eq_true, zero_add]
+
+/-- **exp ∘ log = id on unit quaternions** (scalar part ≥ 0, half angle h = arccos q₀ on the closed-form cells of the two
+    series the code consumes: eps ≤ h and eps ≤ h²): the very same quaternion comes back -/
+theorem SO3Quat_exp_log (q : Fin 4 → ℝ) (hq : q 0 * q 0 + q 1 * q 1 + q 2 * q 2 + q 3 * q 3 = 1) (h0 : 0 ≤ q 0)
+    (hc1 : eps ≤ Real.arccos (q 0)) (hc2 : eps ≤ Real.arccos (q 0) ^ 2) :
+    SO3Quat.exp.r_vec (SO3Quat.log.r_vec q) = q := by
+  set h := Real.arccos (q 0) with hh
+  have hq1 : q 0 ≤ 1 := by nlinarith [mul_self_nonneg (q 1), mul_self_nonneg (q 2), mul_self_nonneg (q 3)]
+  have hpos : 0 < h := lt_of_lt_of_le eps_pos hc1
+  have hle : h ≤ Real.pi / 2 := Real.arccos_le_pi_div_two.mpr h0
+  have hcos : Real.cos h = q 0 := Real.cos_arccos (by linarith) hq1
+  have hsinpos : 0 < Real.sin h := Real.sin_pos_of_pos_of_lt_pi hpos (by linarith [Real.pi_pos])
+  have hsin2 : Real.sin h ^ 2 = q 1 * q 1 + q 2 * q 2 + q 3 * q 3 := by
+    have := Real.sin_sq_add_cos_sq h; rw [hcos] at this; nlinarith
+  rw [SO3Quat_log_spec_pos q hq (not_lt.mpr h0), C02.SO3Quat_exp_spec]
+  rw [x_over_sin_x_closed (by rw [abs_of_pos hpos]; exact hc1)]
+  have hu : C02.usq ![2 * (q 1 * (h / Real.sin h)), 2 * (q 2 * (h / Real.sin h)), 2 * (q 3 * (h / Real.sin h))] / 4 = h ^ 2 := by
+    simp only [C02.usq, Matrix.cons_val_zero, Matrix.cons_val_one, Matrix.cons_val_two, Matrix.head_cons, Matrix.tail_cons]
+    field_simp
+    nlinarith [hsin2]
+  rw [hu, sq_cos_x_closed hc2, sq_sin_x_over_x_closed hc2, Real.sqrt_sq hpos.le, hcos]
+  funext i; fin_cases i <;> simp [sFun, ne_of_gt hpos] <;> (simp only [← hh]) <;> field_simp
+
+/-- either sign: exp(log q) is q or −q, hence the same rotation — for every unit quaternion with non-zero scalar part on the cell -/
+theorem SO3Quat_exp_log_rotation (q : Fin 4 → ℝ) (hq : q 0 * q 0 + q 1 * q 1 + q 2 * q 2 + q 3 * q 3 = 1) (h0 : q 0 ≠ 0)
+    (hc1 : eps ≤ Real.arccos |q 0|) (hc2 : eps ≤ Real.arccos |q 0| ^ 2) :
+    qmat (SO3Quat.exp.r_vec (SO3Quat.log.r_vec q)) = qmat q := by
+  rcases lt_or_gt_of_ne h0 with hneg | hpos
+  · have hl : SO3Quat.log.r_vec (-q) = SO3Quat.log.r_vec q := by
+      obtain ⟨a, b, c⟩ := SO3Quat_log_neg q h0 (by rw [hq]; norm_num)
+      funext i; fin_cases i
+      · exact a
+      · exact b
+      · exact c
+    have hq' : (-q) 0 * (-q) 0 + (-q) 1 * (-q) 1 + (-q) 2 * (-q) 2 + (-q) 3 * (-q) 3 = 1 := by
+      simp only [Pi.neg_apply]; linarith
+    have habs : |q 0| = (-q) 0 := by rw [abs_of_neg hneg]; rfl
+    rw [habs] at hc1 hc2
+    have := SO3Quat_exp_log (-q) hq' (by simp only [Pi.neg_apply]; linarith) hc1 hc2
+    rw [hl] at this
+    rw [this, qmat_neg]
+  · rw [abs_of_pos hpos] at hc1 hc2
+    rw [SO3Quat_exp_log q hq hpos.le hc1 hc2]
+
+/-- the returned rotation vector is the principal one: its length is twice the half angle arccos |q₀| ≤ π -/
+theorem SO3Quat_log_principal (q : Fin 4 → ℝ) (hq : q 0 * q 0 + q 1 * q 1 + q 2 * q 2 + q 3 * q 3 = 1) (h0 : 0 ≤ q 0)
+    (hc1 : eps ≤ Real.arccos (q 0)) :
+    nsq (SO3Quat.log.r_vec q) = (2 * Real.arccos (q 0)) ^ 2 ∧ 2 * Real.arccos (q 0) ≤ Real.pi := by
+  have hq1 : q 0 ≤ 1 := by nlinarith [mul_self_nonneg (q 1), mul_self_nonneg (q 2), mul_self_nonneg (q 3)]
+  have hpos : 0 < Real.arccos (q 0) := lt_of_lt_of_le eps_pos hc1
+  have hle : Real.arccos (q 0) ≤ Real.pi / 2 := Real.arccos_le_pi_div_two.mpr h0
+  have hcos : Real.cos (Real.arccos (q 0)) = q 0 := Real.cos_arccos (by linarith) hq1
+  have hsinpos : 0 < Real.sin (Real.arccos (q 0)) := Real.sin_pos_of_pos_of_lt_pi hpos (by linarith [Real.pi_pos])
+  have hsin2 : Real.sin (Real.arccos (q 0)) ^ 2 = q 1 * q 1 + q 2 * q 2 + q 3 * q 3 := by
+    have := Real.sin_sq_add_cos_sq (Real.arccos (q 0)); rw [hcos] at this; nlinarith
+  refine ⟨?_, by linarith⟩
+  rw [SO3Quat_log_spec_pos q hq (not_lt.mpr h0), x_over_sin_x_closed (by rw [abs_of_pos hpos]; exact hc1)]
+  simp only [nsq, Matrix.cons_val_zero, Matrix.cons_val_one, Matrix.cons_val_two, Matrix.head_cons, Matrix.tail_cons]
+  field_simp
+  nlinarith [hsin2]
+
+/-- **log ∘ exp = id** for rotation vectors of length θ < π on the closed-form cells (eps ≤ θ/2, eps ≤ θ²/4) -/
+theorem SO3Quat_log_exp (x : Fin 3 → ℝ) (hpi : Real.sqrt (nsq x) < Real.pi)
+    (hc1 : eps ≤ Real.sqrt (nsq x) / 2) (hc2 : eps ≤ C02.usq x / 4) :
+    SO3Quat.log.r_vec (SO3Quat.exp.r_vec x) = x := by
+  have hq : SO3Quat.exp.r_vec x = qexp x := by
+    rw [C02.SO3Quat_exp_spec, sq_cos_x_closed hc2, sq_sin_x_over_x_closed hc2, sqrt_quarter, C02.usq_eq]
+    rfl
+  set θ := Real.sqrt (nsq x) with hθ
+  have hpos : 0 < θ / 2 := lt_of_lt_of_le eps_pos hc1
+  have hn := qnormSq_qexp x
+  have hn' : qexp x 0 * qexp x 0 + qexp x 1 * qexp x 1 + qexp x 2 * qexp x 2 + qexp x 3 * qexp x 3 = 1 := by
+    unfold qnormSq at hn; nlinarith [hn]
+  have h00 : qexp x 0 = Real.cos (θ / 2) := by simp [qexp, hθ]
+  have hcospos : 0 ≤ Real.cos (θ / 2) := Real.cos_nonneg_of_mem_Icc ⟨by linarith, by linarith⟩
+  have harc : Real.arccos (qexp x 0) = θ / 2 := by
+    rw [h00]; exact Real.arccos_cos hpos.le (by linarith)
+  have hsinpos : 0 < Real.sin (θ / 2) := Real.sin_pos_of_pos_of_lt_pi hpos (by linarith)
+  rw [hq, SO3Quat_log_spec_pos (qexp x) hn' (by rw [h00]; exact not_lt.mpr hcospos), harc,
+    x_over_sin_x_closed (by rw [abs_of_pos hpos]; exact hc1)]
+  have hθ0 : θ ≠ 0 := by linarith
+  funext i; fin_cases i <;> simp [qexp, sFun, ne_of_gt hpos, ← hθ] <;> field_simp
+
+/-- non-vacuity of the cell hypotheses: the 90° rotation about x, q = (√2/2, √2/2, 0, 0), half angle π/4 -/
+example : eps ≤ Real.pi / 4 ∧ eps ≤ (Real.pi / 4) ^ 2 := by
+  have h := Real.pi_gt_three
+  have e := eps_bounds.2
+  constructor
+  · linarith
+  · nlinarith
 
 end C03
